@@ -645,7 +645,7 @@ func init() {
 	run.Register(run.Prop[C03Case]{
 		ID:    "C03",
 		Level: "fault_enumeration",
-		Rule: "case = configuration + history producing a tree with a dirty region (optionally over a persisted clean region) + 1-3 MakeRoot attempts, each under a generated plan assigning to the i-th arriving Store call a fate {delay class 0-3, hold as straggler until MakeRoot has returned or 5 ms, fail}, with operations in between, always ending with a fault-free attempt; for a quarter of the cases every single failing arrival position of the first flush is additionally enumerated (<=12 writes) with a fault-free retry; a quarter re-persist the same contents into a second store with another prefix through the same cache. Oracle: on success no Store call in flight at return (atomic counter), every node reachable from the returned root is in the store under the name of its own bytes and the entry count matches; any failed Store => MakeRoot returns an error; after an error contents/Size/Get/Iter/Insert/Delete still agree with the model. " +
+		Rule: "case = configuration + history producing a tree with a dirty region (optionally over a persisted clean region) + 1-3 MakeRoot attempts, each under a generated plan assigning to the i-th arriving Store call a fate {delay class 0-3, hold as straggler until MakeRoot has returned or 5 ms, fail}, with operations in between, always ending with a fault-free attempt; for a quarter of the cases every single failing arrival position of the first flush is additionally enumerated (<=12 writes) with a fault-free retry; a quarter re-persist the same contents into a second store with another prefix through the same cache, into two of the library's in-memory stores, into two S3 stores with different prefixes on one service and into two S3 services (different endpoints) with the same bucket and prefix, each pair behind one node cache; into an S3 service that refuses one upload (or that one and all later ones) on every attempt with plain and AWS-style retryable errors; and run twin flushes of identical unsaved nodes with the first shared write failing. Oracle: on success no Store call in flight at return (atomic counter), every node reachable from the returned root is in the store under the name of its own bytes and the entry count matches; any failed Store => MakeRoot returns an error; after an error contents/Size/Get/Iter/Insert/Delete still agree with the model. " +
 			"Non-trivial = >=3 concurrent writes completed in an order different from their arrival order, OR a failed attempt followed by a successful one; distinct by case hash",
 		Assumptions: []string{"delays only shape the schedule; no timing enters a verdict (the 5 ms straggler guard only bounds how long correct code is made to wait)", "completion orders are sampled, not enumerated"},
 		Gen:         genC03,
